@@ -108,6 +108,9 @@ pub struct Scope {
     type_aliases: IndexMap<String, u32>,
     /// The map of resource names to their encoded indexes.
     resources: IndexMap<String, u32>,
+    /// The named interfaces that the component type being encoded imports explicitly
+    /// and that have not been imported yet.
+    explicit_imports: IndexMap<String, ItemKind>,
     /// The encodable for this scope.
     encodable: Encodable,
 }
@@ -372,6 +375,19 @@ impl<'a> TypeEncoder<'a> {
 
         state.push(Encodable::Component(ComponentType::default()));
 
+        // An interface that the world imports explicitly must be imported once, in full,
+        // even when a used type or another import depends on it first.
+        for (name, kind) in &world.imports {
+            if let ItemKind::Instance(id) = kind {
+                if self.0[*id].id.as_deref() == Some(name.as_str()) {
+                    state
+                        .current
+                        .explicit_imports
+                        .insert(name.clone(), *kind);
+                }
+            }
+        }
+
         for used in world.uses.values() {
             self.import_deps(state, used.interface);
         }
@@ -379,6 +395,15 @@ impl<'a> TypeEncoder<'a> {
         self.use_aliases(state, &world.uses, &world.imports);
 
         for (name, kind) in &world.imports {
+            if let ItemKind::Instance(id) = kind {
+                if self.0[*id].id.as_deref() == Some(name.as_str())
+                    && state.current.explicit_imports.swap_remove(name).is_none()
+                {
+                    // Already imported as a dependency of an earlier item
+                    continue;
+                }
+            }
+
             self.import(state, name, *kind);
         }
 
@@ -400,6 +425,12 @@ impl<'a> TypeEncoder<'a> {
     fn import_deps(&self, state: &mut State, id: InterfaceId) {
         let iid = self.0[id].id.as_ref().expect("interface should have an id");
         if state.current.instances.contains_key(iid) {
+            return;
+        }
+
+        // Import the interface itself if the component type imports it explicitly
+        if let Some(kind) = state.current.explicit_imports.swap_remove(iid) {
+            self.import(state, iid, kind);
             return;
         }
 
